@@ -1,7 +1,7 @@
 (* C01: LapTimer files survive encode -> decode -> encode unchanged. *)
 From Coq Require Import String Ascii List ZArith NArith Bool Lia.
 From TT Require Import Base.Civil.
-From TT Require Import Base.Outcome Base.Str Base.F64 Xml.Print Xml.Lex Laptimer.Leaves Laptimer.Value Laptimer.Codec Proofs.Xml_proofs Proofs.Leaf_proofs Proofs.Doc_proofs Proofs.Doc_lt.
+From TT Require Import Base.Outcome Base.Str Base.F64 Xml.Print Xml.Lex Laptimer.Leaves Laptimer.Value Laptimer.Codec Proofs.Xml_proofs Proofs.Leaf_proofs Proofs.Doc_proofs Proofs.Doc_lt Proofs.Fixed_proofs.
 Import ListNotations.
 Local Open Scope Z_scope.
 
@@ -88,3 +88,28 @@ Print Assumptions C01_duration_idempotent.
 Theorem C01_document_roundtrip : forall v, wf_val v -> lex (enc_text v) = Ok (cleaned (root_tree v)).
 Proof. exact enc_parses. Qed.
 Print Assumptions C01_document_roundtrip.
+
+(* ---- fixed-decimal leaves (speeds, temperatures, coordinates, gear ratios ...) ---- *)
+(* `printable dp x`: the float x prints, at dp decimals, as N units of the last decimal with
+   0 <= N < 2^51 (either sign) - e.g. every coordinate at 8 decimals, every speed at 1.  For every
+   such value the text written is read back (strconv.ParseFloat: the nearest float64, shown to be
+   within 2^-53 + 2^-64 relative of the decimal through Flocq) as a value that prints as the very
+   same text: the second encoding equals the first, leaf by leaf.  dp <= 22. *)
+Theorem C01_fixed_decimal_reencode :
+  forall dp x, (dp <= 22)%nat -> printable dp x ->
+    exists l', quant_leaf (LvF dp x) = Ok l' /\ leaf_text l' = leaf_text (LvF dp x).
+Proof. exact fixed_leaf_reencode. Qed.
+Print Assumptions C01_fixed_decimal_reencode.
+
+Theorem C01_coordinate_reencode :
+  forall la lo, printable 8 la -> printable 8 lo ->
+    exists l', quant_leaf (LvCoord la lo) = Ok l' /\ leaf_text l' = leaf_text (LvCoord la lo).
+Proof. exact coord_leaf_reencode. Qed.
+Print Assumptions C01_coordinate_reencode.
+
+(* the float nearest to N / 10^dp prints, at dp decimals, as N again (0 < N < 2^51) *)
+Theorem C01_nearest_float_prints_back :
+  forall N dp, 0 < N < 2 ^ 51 -> (dp <= 22)%nat ->
+    exists m e, decomp_pos (f_of_ratio N (10 ^ Z.of_nat dp)) = Some (m, e) /\ scaled_q m e dp = N.
+Proof. exact printed_back. Qed.
+Print Assumptions C01_nearest_float_prints_back.
